@@ -1,6 +1,9 @@
 package jsonrpc
 
 import (
+	"context"
+	"strings"
+
 	"github.com/filecoin-project/go-jsonrpc"
 
 	coreda "github.com/evstack/ev-node/core/da"
@@ -18,4 +21,45 @@ func getKnownErrorsMapping() jsonrpc.Errors {
 	errs.Register(jsonrpc.ErrorCode(coreda.StatusContextCanceled), &coreda.ErrContextCanceled)
 	errs.Register(jsonrpc.ErrorCode(coreda.StatusHeightFromFuture), &coreda.ErrHeightFromFuture)
 	return errs
+}
+
+// knownErrors are the DA errors callers tell apart with errors.Is.
+var knownErrors = []error{
+	coreda.ErrBlobNotFound,
+	coreda.ErrBlobSizeOverLimit,
+	coreda.ErrTxTimedOut,
+	coreda.ErrTxAlreadyInMempool,
+	coreda.ErrTxIncorrectAccountSequence,
+	coreda.ErrContextDeadline,
+	coreda.ErrHeightFromFuture,
+}
+
+// remoteError is an error answered by the server that names one or more known DA errors.
+type remoteError struct {
+	msg   string
+	known []error
+}
+
+func (e *remoteError) Error() string   { return e.msg }
+func (e *remoteError) Unwrap() []error { return e.known }
+
+// restoreError gives an error received from the server its identity back: only the message of an
+// error crosses the wire, so errors.Is(err, coreda.ErrX) would never hold on the client side.
+func restoreError(err error) error {
+	if err == nil {
+		return nil
+	}
+	msg := err.Error()
+	// the message of context.DeadlineExceeded contains the one of coreda.ErrContextDeadline
+	scrubbed := strings.ReplaceAll(msg, context.DeadlineExceeded.Error(), "")
+	var known []error
+	for _, k := range knownErrors {
+		if strings.Contains(scrubbed, k.Error()) {
+			known = append(known, k)
+		}
+	}
+	if len(known) == 0 {
+		return err
+	}
+	return &remoteError{msg: msg, known: known}
 }
